@@ -18,3 +18,11 @@ func collectC03() {
 	hh.Add(hh, new(big.Int).SetUint64(types.ZeroHashHeight.Height))
 	cB("ZeroHashHeight", hh)
 }
+
+func init() { collectors = append(collectors, collectTokenStandards) }
+
+// the two protocol token standards as numbers (referenced by the translated release methods of the embedded contracts)
+func collectTokenStandards() {
+	cB("ZnnTokenStandard", new(big.Int).SetBytes(types.ZnnTokenStandard[:]))
+	cB("QsrTokenStandard", new(big.Int).SetBytes(types.QsrTokenStandard[:]))
+}
